@@ -110,6 +110,12 @@ type host struct {
 	pending chan error // channel of the raw handler that has not completed yet
 }
 
+type (
+	hostMood  string
+	hostFlag  bool
+	hostCount int
+)
+
 var errBoom = errors.New("boom")
 var errCmd = errors.New("command failed")
 
@@ -171,6 +177,18 @@ func newHost(c *Case, texts []string) (h *host, err error) {
 				h.fcalls = append(h.fcalls, callRec{name, valsOf(args)})
 				return nil, nil
 			})
+		case "idstr": // converted functions whose parameters are named types
+			if err := dr.ConvertAndAddFunction(name, func(m hostMood) string { return string(m) }); err != nil {
+				return nil, fmt.Errorf("registration of %s refused: %w", name, err)
+			}
+		case "idbool":
+			if err := dr.ConvertAndAddFunction(name, func(f hostFlag) bool { return bool(f) }); err != nil {
+				return nil, fmt.Errorf("registration of %s refused: %w", name, err)
+			}
+		case "idint":
+			if err := dr.ConvertAndAddFunction(name, func(n hostCount) int { return int(n) }); err != nil {
+				return nil, fmt.Errorf("registration of %s refused: %w", name, err)
+			}
 		}
 	}
 	for name, kind := range c.Cmds {
